@@ -37,7 +37,7 @@ def get_streams(prop):
 
 
 class CaseTimeout(BaseException):
-    """raised by SIGALRM; a BaseException so that the `except Exception` clauses of the streams (which turn library exceptions
+    """raised by the per-case timer; a BaseException so that the `except Exception` clauses of the streams (which turn library exceptions
     into failures) never mistake it for an exception raised by the library"""
     pass
 
@@ -56,8 +56,11 @@ def safe_run(stream, case, drv):
     import signal
     limit = getattr(stream, "limit", CASE_LIMIT_S)
     _BEAT.update(t=time.time(), limit=limit, stream=stream.name, case=case)
-    old = signal.signal(signal.SIGALRM, _alarm)
-    signal.setitimer(signal.ITIMER_REAL, limit)
+    # the limit is on CPU time of this process (ITIMER_PROF), not on wall-clock time: a call that does not terminate burns CPU and
+    # is caught, a worker that is merely starved on a loaded machine is not (wall-clock stalls are the watchdog's business and are
+    # never a verdict)
+    old = signal.signal(signal.SIGPROF, _alarm)
+    signal.setitimer(signal.ITIMER_PROF, limit)
     try:
         return stream.run(case, drv)
     except CaseTimeout:
@@ -69,16 +72,16 @@ def safe_run(stream, case, drv):
         drv.__init__()
         if isinstance(case, dict) and isinstance(case.get("n_jobs"), int) and case["n_jobs"] > 1:
             # a joblib process pool that stalls on a loaded machine is not a verdict about the library
-            return core.skip(f"no result within {limit} s with n_jobs={case['n_jobs']} (process pool): not counted")
-        return core.fail(f"no result within {limit} s (similar cases take milliseconds): the call did not terminate")
+            return core.skip(f"no result within {limit} s of CPU time with n_jobs={case['n_jobs']} (process pool): not counted")
+        return core.fail(f"no result after {limit} s of CPU time (similar cases take milliseconds): the call did not terminate")
     except core.DriverError:
         raise
     except Exception as e:  # an unexpected exception inside a stream is a harness error, not a verdict
         return core.Result("error", f"{type(e).__name__}: {e}\n{traceback.format_exc()[-1200:]}", False, {})
     finally:
         _BEAT["t"] = None
-        signal.setitimer(signal.ITIMER_REAL, 0)
-        signal.signal(signal.SIGALRM, old)
+        signal.setitimer(signal.ITIMER_PROF, 0)
+        signal.signal(signal.SIGPROF, old)
 
 
 def run_one(prop, stream_name, case):
@@ -166,17 +169,17 @@ def main():
             out["samples"].append({"stream": sname, "case": case, "status": r.status})
 
     def watchdog():
-        # a call that blocks outside the interpreter (a dead joblib pool, a native dead-lock) is not interrupted by SIGALRM:
+        # a call that blocks outside the interpreter (a dead joblib pool, a native dead-lock) is not interrupted by the CPU-time signal:
         # after a grace period write what has been collected, record the case as not terminating and leave
         while True:
             time.sleep(5)
             t = _BEAT["t"]
-            if t is not None and time.time() - t > _BEAT["limit"] + HARD_GRACE_S:
+            if t is not None and time.time() - t > 4 * _BEAT["limit"] + HARD_GRACE_S:
                 try:
                     # not a verdict: a call blocked outside the interpreter (dead worker pool, native dead-lock) can be caused by
-                    # the machine (memory pressure, killed child process); Python-level non-termination is caught by SIGALRM above
+                    # the machine (memory pressure, killed child process); Python-level non-termination is caught by the CPU-time limit above
                     out["abandoned_at"] = {"stream": _BEAT["stream"], "case": _BEAT["case"],
-                                           "detail": f"no result within {_BEAT['limit'] + HARD_GRACE_S} s and the call could not be "
+                                           "detail": f"no result within {4 * _BEAT['limit'] + HARD_GRACE_S} s of wall-clock time and the call could not be "
                                                      "interrupted: the worker stopped here and reported what it had"}
                     out["nontrivial_keys"] = sorted(keys)
                     out["wall_s"] = round(time.time() - t0, 1)
